@@ -1,11 +1,90 @@
-/- C02 — executable model (stub; filled in by the property's owner). -/
-import Mahotas.Model.Border
-import Mahotas.Model.DType
+/-
+C02 — opening, closing, conditional operators, top-hats, `subm`
+(`morph.py`: `open`, `close`, `cerode`, `cdilate`, `tophat_open`, `tophat_close`, `subm`;
+ `_morph.cpp`: `subm`). The compositions are exactly the Python ones, built from the C01 kernels.
+-/
+import Mahotas.Model.C01
+import Mahotas.Model.C14
 namespace Mahotas.C02
-open Mahotas
+open Mahotas Mahotas.C01
+
+/-- `_morph.erode(f, Bc, out)` as an image -/
+def erodeImg (dt : DT) (A : Img Int) (sup : List (List Int × Int)) : Img Int :=
+  { shape := A.shape, data := erodeModel dt A sup }
+
+/-- `_morph.dilate(f, Bc, out)` as an image -/
+def dilateImg (dt : DT) (A : Img Int) (sup : List (List Int × Int)) : Img Int :=
+  { shape := A.shape, data := dilateModel dt A sup }
+
+/-- `np.minimum` / `np.maximum` / `subm` on two images of the same shape -/
+def map2 (op : Int → Int → Int) (A B : Img Int) : Img Int :=
+  { shape := A.shape
+    data := ((List.range A.size).map fun i => op (A.data.getD i 0) (B.data.getD i 0)).toArray }
+
+/-- `open(f) = dilate(erode(f).copy(), out=eroded)` -/
+def openModel (dt : DT) (A : Img Int) (sup : List (List Int × Int)) : Img Int :=
+  dilateImg dt (erodeImg dt A sup) sup
+
+/-- `close(f) = erode(dilate(f).copy(), out=dilated)` -/
+def closeModel (dt : DT) (A : Img Int) (sup : List (List Int × Int)) : Img Int :=
+  erodeImg dt (dilateImg dt A sup) sup
+
+/-- `cerode(f, g) = maximum(erode(maximum(f, g)), g)` -/
+def cerodeModel (dt : DT) (f g : Img Int) (sup : List (List Int × Int)) : Img Int :=
+  map2 max (erodeImg dt (map2 max f g) sup) g
+
+/-- the loop of `cdilate`: `f = minimum(dilate(f), g)`, at most `n` times, stopping early at a fixed point -/
+def cdilateLoop (dt : DT) (g : Img Int) (sup : List (List Int × Int)) : Nat → Img Int → Img Int
+  | 0, f => f
+  | n + 1, f =>
+    let f' := map2 min (dilateImg dt f sup) g
+    if f'.data == f.data then f' else cdilateLoop dt g sup n f'
+
+/-- `cdilate(f, g, Bc, n)` -/
+def cdilateModel (dt : DT) (f g : Img Int) (sup : List (List Int × Int)) (n : Nat) : Img Int :=
+  cdilateLoop dt g sup n (map2 min f g)
+
+/-- `subm(a, b)` element by element -/
+def submModel (dt : DT) (a b : Img Int) : Img Int := map2 (submElem dt) a b
+
+/-- `tophat_open(f) = subm(f, open(f))` -/
+def tophatOpenModel (dt : DT) (f : Img Int) (sup : List (List Int × Int)) : Img Int :=
+  submModel dt f (openModel dt f sup)
+
+/-- `tophat_close(f) = subm(close(f), f)` -/
+def tophatCloseModel (dt : DT) (f : Img Int) (sup : List (List Int × Int)) : Img Int :=
+  submModel dt (closeModel dt f sup) f
+
+/-- largest height of a member of the element (0 for an empty one) -/
+def maxHeight (dt : DT) (sup : List (List Int × Int)) : Int :=
+  (sup.filter (isMember dt)).foldl (fun m kh => max m kh.2) 0
+
+/-- the statement's "values stay clear of the dtype's saturation limits", made precise:
+    every pixel lies in `[lo + 2H, hi - 2H]` with `H` the largest height of the element, so that two
+    composed operators never saturate and never produce the absorbing value `lo`.
+    Boolean images are always in the domain. -/
+def clearOf (dt : DT) (sup : List (List Int × Int)) (A : Img Int) : Bool :=
+  dt.isBool || A.data.all fun v => decide (dt.lo + 2 * maxHeight dt sup ≤ v) && decide (v ≤ dt.hi - 2 * maxHeight dt sup)
 
 def handle (a : Args) : String :=
+  let dt := DT.ofName (a.str "dt")
   match a.str "kind" with
+  | "subm" =>
+    let xs := a.ints "a"
+    let ys := a.ints "b"
+    let model := List.zipWith (submElem dt) xs ys
+    let spec := List.zipWith (fun x y => dt.clamp (x - y)) xs ys
+    s!"model={showInts model} spec={showInts spec}"
+  | "ops" =>
+    let shape := a.nats "shape"
+    let f : Img Int := { shape := shape, data := (a.ints "f").toArray }
+    let g : Img Int := { shape := shape, data := (a.ints "g").toArray }
+    let bshape := a.nats "bshape"
+    let bc := (a.ints "bc").toArray
+    let sup := support bshape bc dt.isBool
+    let n := a.nat "n"
+    let sh (x : Img Int) := showInts x.data.toList
+    s!"erode={sh (erodeImg dt f sup)} dilate={sh (dilateImg dt f sup)} open={sh (openModel dt f sup)} close={sh (closeModel dt f sup)} cerode={sh (cerodeModel dt f g sup)} cdilate={sh (cdilateModel dt f g sup n)} thopen={sh (tophatOpenModel dt f sup)} thclose={sh (tophatCloseModel dt f sup)} clearf={if clearOf dt sup f then 1 else 0} clearg={if clearOf dt sup g then 1 else 0} symstar={if C14.symStarB (sup.filter (isMember dt)) then 1 else 0}"
   | k => s!"error=unknown-kind-{k}"
 
 end Mahotas.C02
